@@ -7,13 +7,16 @@ from lib import framework as fw
 import props
 
 
+INTEGRATED = set(__import__('json').loads((fw.VERIF / 'tools' / 'claimed.json').read_text()))
+
+
 def main():
     ctx = fw.Ctx('setup', 'quick', 0)
     gens = []
     targets = []
     for m in pkgutil.iter_modules(props.__path__):
         mod = importlib.import_module(f'props.{m.name}')
-        if not mod.META.get('claimed', True):
+        if not mod.META.get('claimed', True) or m.name not in INTEGRATED:
             continue   # work in progress: not built by setup, not in the manifest
         targets.append(mod.META['props'][:-2] + '.vo')
         for g in getattr(mod, 'GENERATORS', ()):
